@@ -25,7 +25,7 @@ ASSUMPTIONS = [
     "runs are fault free (no injection), so any exception after executor entry is cubed's own",
     "an exception whose traceback has no cubed frame while building the recipe is a harness error (inconclusive), not judged",
 ]
-NSHARDS = {"quick": 16, "thorough": 32}
+NSHARDS = {"quick": 16, "thorough": 16}
 PER_SHARD = {"quick": 110, "thorough": 700}
 ALLOWED = {"ValueError", "TypeError", "NotImplementedError", "IndexError"}
 
@@ -100,8 +100,8 @@ def finalize(tier, merged):
     return {
         "rule": RULE,
         "floors": [
-            ("exceptions judged (type+phase)", c.get("exceptions_judged", 0), 150 if tier == "quick" else 2000),
-            ("runs completed without mid-run failure", c.get("completed", 0), 1500 if tier == "quick" else 20000),
+            ("exceptions judged (type+phase)", c.get("exceptions_judged", 0), 150 if tier == "quick" else 1000),
+            ("runs completed without mid-run failure", c.get("completed", 0), 1500 if tier == "quick" else 10000),
         ],
         "assumptions": ASSUMPTIONS,
     }
